@@ -558,7 +558,13 @@ Proof.
         rewrite Forall_forall in Ha. destruct (Ha e Hin) as [[Hq1 Hq2]|Hq1]; lia. }
       intros _. simpl. repeat split; try lia.
       apply set_elem_ok; [apply (forall_ok_mono (h_eof h)); [lia | assumption] | right; simpl; lia].
-    + intros Hc; discriminate.
+    + destruct (h_known h && (pos =? 0) && (0 <? n) && negb (in_bulk h tag ref)); [|intros Hc; discriminate].
+      destruct (alloc_dd h) as [h1|] eqn:Ea; [|exact Hi].
+      destruct (alloc_dd_inv h h1 Hi Ea) as [Hi1 _].
+      pose proof (with_placeholder_inv h1 tag ref (Z.max (h_maxref h1) ref) Hi1) as Hp.
+      match goal with |- context [give_block ?hh tag ref n false] => pose proof (give_block_inv hh tag ref n false Hp) as Hg;
+        destruct (give_block hh tag ref n false) as [h3 okb] end.
+      simpl in *. exact Hg.
   - (* hlwrite *)
     destruct (find_elem h tag ref); [exact Hi|].
     destruct ((pos <? 0) || (n <=? 0) || (blen <=? 0) || (nblk <=? 0) || in_bulk h tag ref); [exact Hi|].
